@@ -97,6 +97,12 @@ def generate(rng, tier):
     for _ in range(6000 if thorough else 800):
         ratio = rng.choice([0.0, 1.0, 0.5, rng.random(), rng.random(), rng.uniform(-0.5, 1.5), 1e-8, 1 - 1e-7, 3.0, -2.0])
         out.append(("lerp " + " ".join(str(rng.getrandbits(8)) for _ in range(6)) + f" {f2b(ratio)}", 0 <= ratio <= 1))
+    # a channel that is the same in both colours stays what it is, whatever the ratio (non-dyadic ratios: the two products of a
+    # 'first*(1-r) + second*r' evaluation are rounded separately)
+    for c in range(256):
+        for ratio in ([0.1, 1.0 / 3, 0.3, 0.7, 0.9, rng.random()] if thorough else [0.1, 1.0 / 3, rng.choice([0.3, 0.7, 0.9, rng.random()])]):
+            g1, g2 = rng.getrandbits(8), rng.getrandbits(8)
+            out.append((f"lerp {c} {g1} {c} {c} {g2} {c} {f2b(ratio)}", True))
     # ---- RGBW
     refs = [(255, 255, 255), (255, 180, 107), (0, 0, 0), (1, 1, 1), (255, 0, 0), (10, 200, 30), (255, 147, 41)]
     rows = range(256) if thorough else [0, 1, 128, 255, rng.getrandbits(8)]
